@@ -1,6 +1,7 @@
 package checks
 
 import (
+	"sort"
 	"time"
 	"context"
 	"bytes"
@@ -55,6 +56,16 @@ func runCLI(c *Ctx, cwd string, stdin []byte, stdoutMode string, args ...string)
 	case "devfull":
 		devfull, _ = os.OpenFile("/dev/full", os.O_WRONLY, 0)
 		cmd.Stdout = devfull
+	case "rdonly-file":
+		// a REGULAR file that refuses writes (descriptor opened read-only): every write fails with
+		// EBADF, as on a disk that is full or over quota, but the file is not a character device
+		if f, err := os.CreateTemp(cwd, "ro-stdout"); err == nil {
+			name := f.Name()
+			f.Close()
+			devfull, _ = os.Open(name)
+			os.Remove(name)
+			cmd.Stdout = devfull
+		}
 	default:
 		cmd.Stdout = &so
 	}
@@ -308,7 +319,7 @@ func evalC16(c *Ctx, cs *Case) {
 	if len(bytes.TrimSpace(doc)) > 0 {
 		lib := OutputMD(string(doc))
 		if lib.Err == nil && len(lib.Out) > 0 {
-			for _, mode := range []string{"devfull", "closed"} {
+			for _, mode := range []string{"devfull", "closed", "rdonly-file"} {
 				for fi, format := range []string{"", "json", "", "yaml"} {
 					args := []string{"output"}
 					if format != "" {
@@ -356,8 +367,15 @@ func evalC16(c *Ctx, cs *Case) {
 			}
 			args = append(args, extArgs...)
 			cwd := jc.Target
+			tdir := jc.Target
+			if withTarget && r.Intn(3) == 0 {
+				// the target is named through a symbolic link to it (no trailing slash)
+				tdir = filepath.Join(jc.Root, "target-link")
+				os.Symlink(jc.Rel, tdir)
+				c.Count("target_dir_through_a_link", 1)
+			}
 			if withTarget {
-				args = append(args, "--target-dir", jc.Target)
+				args = append(args, "--target-dir", tdir)
 				cwd = jc.Root
 			}
 			// the document comes from stdin or, for half of the runs, from --file
@@ -415,7 +433,7 @@ func evalC16(c *Ctx, cs *Case) {
 					}
 					vcwd := jc.Target
 					if withTarget {
-						vargs = append(vargs, "--target-dir", jc.Target)
+						vargs = append(vargs, "--target-dir", tdir)
 						vcwd = jc.Root
 					}
 					if r.Chance(1, 3) {
@@ -468,6 +486,9 @@ func evalC16(c *Ctx, cs *Case) {
 			jc.Remove()
 			jl.Remove()
 		}
+	}
+	if merged != nil && cs.Kind == "wellformed" && cs.Seed%3 == 0 {
+		c16Chroot(c, cs, doc, merged, exts, extArgs)
 	}
 	if c.WantSample(cs.Kind) {
 		res := runCLI(c, j.Target, doc, "", "output")
@@ -695,4 +716,103 @@ func c16Strace(c *Ctx, cs *Case) {
 	if c.WantSample(cs.Kind) {
 		c.Sample(cs.Kind, map[string]any{"doc": trunc(string(doc), 300), "note": "strace -f -P <stdout file> -e inject=write:error=ENOSPC:when=N gtree output; fault case iff the log contains (INJECTED)"})
 	}
+}
+
+// c16Chroot: "--target-dir /" for real. The CLI binary (statically linked) is run inside a chroot
+// jail, with the working directory somewhere else inside it; the tree must appear directly under
+// the jail's "/" (what the library does for the target "/" is known from a run into an ordinary
+// directory), nothing in the working directory, and verify --target-dir / must then succeed.
+// Needs root; skipped (and counted) otherwise.
+func c16Chroot(c *Ctx, cs *Case, doc []byte, merged model.Forest, exts []string, extArgs []string) {
+	if os.Geteuid() != 0 {
+		c.Count("chroot_skipped_not_root", 1)
+		return
+	}
+	for _, n := range cs.Names {
+		if !fsSafeName(n) {
+			return
+		}
+	}
+	for _, rt := range merged {
+		if rt.Name == "gtree" || rt.Name == "work" {
+			return
+		}
+	}
+	base, err := os.MkdirTemp(c.TmpDir, "chroot")
+	if err != nil {
+		return
+	}
+	defer os.RemoveAll(base)
+	if err := copyFile(filepath.Join(c.BinDir, "gtree"), filepath.Join(base, "gtree")); err != nil {
+		c.Count("chroot_skipped_copy_failed", 1)
+		return
+	}
+	os.Mkdir(filepath.Join(base, "work"), 0o755)
+	os.WriteFile(filepath.Join(base, "work", "doc.md"), doc, 0o644)
+	run := func(args ...string) cliRes {
+		cmd := exec.Command("/gtree", args...)
+		cmd.Path = "/gtree"
+		cmd.SysProcAttr = &syscall.SysProcAttr{Chroot: base}
+		cmd.Dir = "/work"
+		cmd.Stdin = bytes.NewReader(doc)
+		var so, se bytes.Buffer
+		cmd.Stdout, cmd.Stderr = &so, &se
+		cmd.Env = []string{"NO_COLOR=1"}
+		err := cmd.Run()
+		res := cliRes{stdout: so.Bytes(), stderr: se.Bytes()}
+		if ee, ok := err.(*exec.ExitError); ok {
+			res.exit = ee.ExitCode()
+		} else if err != nil {
+			res.runErr, res.exit = err, -1
+		}
+		return res
+	}
+	// what the library creates for this document in a fresh directory
+	jl, err := mon.NewJail(c.TmpDir, true)
+	if err != nil {
+		return
+	}
+	lb := jl.Snap()
+	lib := mkdirCall(mkdirRoutes[0], string(doc), nil, fsOpts(jl.Target, exts, len(exts) > 0, false, false, false))
+	var want []string
+	for _, d := range mon.Diff(lb, jl.Snap()) {
+		want = append(want, strings.Replace(d, jl.Rel+"/", "", 1))
+	}
+	jl.Remove()
+	if lib.Err != nil || lib.Panic != nil {
+		return
+	}
+	before, _ := mon.Snap(base)
+	res := run(append(append([]string{"mkdir"}, extArgs...), "--target-dir", "/")...)
+	after, _ := mon.Snap(base)
+	got := mon.Diff(before, after)
+	sort.Strings(got)
+	sort.Strings(want)
+	cs.Entry = "mkdir --target-dir / (in a chroot, cwd elsewhere)"
+	c.Eval(gen.HashString(string(doc)+"\x00chroot"), true)
+	c.Count("chroot_runs", 1)
+	det := map[string]any{"doc": trunc(string(doc), 400), "exit": res.exit, "stderr": trunc(string(res.stderr), 300), "created": got, "library_creates": want}
+	switch {
+	case res.runErr != nil:
+		c.Count("chroot_skipped_exec_failed", 1)
+	case res.exit != 0:
+		c.Violation(cs, "cli.nonzero-on-success", "chroot", det)
+	case !sameStrings(got, want):
+		c.Violation(cs, "cli.mkdir-effect-differs-from-library", "chroot", det)
+	default:
+		v := run("verify", "--strict", "--target-dir", "/")
+		if v.exit != 0 {
+			det["verify_exit"], det["verify_stderr"] = v.exit, trunc(string(v.stderr), 300)
+			c.Violation(cs, "cli.nonzero-on-success", "chroot verify", det)
+		}
+	}
+	cs.Entry = ""
+}
+
+func copyFile(src, dst string) error {
+	b, err := os.ReadFile(src)
+	if err != nil {
+		return err
+	}
+	return os.WriteFile(dst, b, 0o755)
 }
